@@ -89,6 +89,27 @@ impl<T> Mutex<T> {
     }
 }
 
+impl<T> Mutex<T> {
+    /// Like `std::sync::Mutex::try_lock`: one attempt, never waits. Present so that code using
+    /// `try_lock` builds with the hooks on; a successful attempt is reported like `lock`.
+    pub fn try_lock(&self) -> Result<MutexGuard<'_, T>, TryLockError<MutexGuard<'_, T>>> {
+        emit(Event::BeforeLock);
+        match self.0.try_lock() {
+            Ok(g) => {
+                emit(Event::Acquired);
+                Ok(MutexGuard(Some(g)))
+            }
+            Err(TryLockError::Poisoned(p)) => {
+                emit(Event::Acquired);
+                Err(TryLockError::Poisoned(PoisonError::new(MutexGuard(Some(
+                    p.into_inner(),
+                )))))
+            }
+            Err(TryLockError::WouldBlock) => Err(TryLockError::WouldBlock),
+        }
+    }
+}
+
 impl<T> Deref for MutexGuard<'_, T> {
     type Target = T;
     fn deref(&self) -> &T {
